@@ -4,6 +4,7 @@ import (
 	"context"
 	"errors"
 	"fmt"
+	"github.com/sdcio/data-server/pkg/verifhook"
 	"slices"
 	"strings"
 	"time"
@@ -393,6 +394,7 @@ func (d *Datastore) lowlevelTransactionSet(ctx context.Context, transaction *typ
 func (d *Datastore) TransactionSet(ctx context.Context, transactionId string, transactionIntents []*types.TransactionIntent, replaceIntent *types.TransactionIntent, transactionTimeout time.Duration, dryRun bool) (*sdcpb.TransactionSetResponse, error) {
 	var err error
 
+	verifhook.Yield("set.trylock", transactionId)
 	// try locking the datastore if it is locked return the specific ErrDatastoreLocked error.
 	if !d.dmutex.TryLock() {
 		return nil, ErrDatastoreLocked
@@ -500,6 +502,7 @@ func cacheUpdateToSdcpbUpdate(lvs tree.LeafVariantSlice) ([]*sdcpb.Update, error
 func (d *Datastore) TransactionConfirm(ctx context.Context, transactionId string) error {
 	log.Infof("Transaction %s - Confirm", transactionId)
 
+	verifhook.Yield("confirm.trylock", transactionId)
 	if !d.dmutex.TryLock() {
 		return ErrDatastoreLocked
 	}
@@ -511,6 +514,7 @@ func (d *Datastore) TransactionConfirm(ctx context.Context, transactionId string
 func (d *Datastore) TransactionCancel(ctx context.Context, transactionId string) error {
 	log.Infof("Transaction %s - Cancel", transactionId)
 
+	verifhook.Yield("cancel.trylock", transactionId)
 	if !d.dmutex.TryLock() {
 		return ErrDatastoreLocked
 	}
